@@ -252,6 +252,14 @@ DeliverTo(kp, j, m) ==
 (* keyper.go Start after a crash: ResetAllTxPointerAges, new Keyper object (the database stays) *)
 RestartKeyper(kp) == [kp EXCEPT !.s = Restart(@)]
 
+(* The PROJECTION of a keyper's tables that the composition follows shows, of the rows that are
+   keyed by a slot, those of the current slot only: when the next slot begins (nothing in flight)
+   the signatures of the finished slot and the shares / keys of its slot identity are left behind.
+   Nothing reads them again: signatures are selected by slot, a slot identity occurs in the
+   triggers of its own slot only.  (The final key judgement is made over ALL decryption_key rows.) *)
+ForgetSlot(kp) ==
+    [kp EXCEPT !.sg = {}, !.sh = {r \in @ : r.id.k # "slot"}, !.ky = {id \in @ : id.k # "slot"}]
+
 (* publishing: own validators first (libp2p validates local publishes), gnosis keys are also seen
    by the access node, one copy per other keyper *)
 RECURSIVE Publish(_, _, _)
@@ -287,7 +295,8 @@ ApplyAct(w, a) ==
       [] a.a = "reorg"   -> [w |-> [w EXCEPT !.ch = ReorgBlock(@, a.g)], o |-> ObsRec("-", NoTrigR), out |-> <<>>]
       [] a.a = "sync"    -> [w |-> [w EXCEPT !.kp[k].sy = SyncStep(w.ch, @)], o |-> ObsRec("-", NoTrigR), out |-> <<>>]
       [] a.a = "restart" -> [w |-> [w EXCEPT !.kp[k] = RestartKeyper(@)], o |-> ObsRec("-", NoTrigR), out |-> <<>>]
-      [] a.a = "slot"    -> [w |-> [w EXCEPT !.slot = @ + 1], o |-> ObsRec("-", NoTrigR), out |-> <<>>]
+      [] a.a = "slot"    -> [w |-> [w EXCEPT !.slot = @ + 1, !.kp = [x \in DOMAIN @ |-> ForgetSlot(@[x])]],
+                             o |-> ObsRec("-", NoTrigR), out |-> <<>>]
       [] a.a = "tick"    -> LET x == TickKeyper(w.ch, w.kp[k], a.n, w.slot) IN
                             [w |-> [w EXCEPT !.kp[k] = x.kp], o |-> ObsRec("-", x.r), out |-> x.out]
       [] a.a = "dlv"     -> LET x == DeliverTo(w.kp[k], a.n, a.m) IN
